@@ -4,9 +4,11 @@ import json, os
 HERE = os.path.dirname(os.path.dirname(os.path.abspath(__file__)))
 ALL = [f"C{i:02d}" for i in range(1, 21)]
 
+# only checks accepted by the coordinator are registered (builders may have work in progress in harness/props)
+ENABLED = set(open(os.path.join(HERE, "harness", "props", "ENABLED")).read().split())
 CHECKS = {}
 for _f in sorted(os.listdir(os.path.join(HERE, "harness", "props"))):
-    if _f.endswith(".meta.json"):
+    if _f.endswith(".meta.json") and _f[:3].upper() in ENABLED:
         CHECKS[_f[:3].upper()] = json.load(open(os.path.join(HERE, "harness", "props", _f)))
 
 NOT_YET = "check not built yet in this session (see DESIGN.md section 7 for the build order); no claim is made"
